@@ -11,6 +11,7 @@ C2S : enumerated and random role names over mixed-case ASCII, digits,
       map taken from Python's str.lower.
 """
 import itertools
+import json
 
 from harness import ev, tlc
 from checks import eval_common as ec
@@ -75,6 +76,19 @@ def run(ctx):
             add([ev.ph('k')], {'k': ''}, creds, nest)
             add([ev.ph('k'), ev.ph('j')], {'k': '', 'j': ''}, creds, nest)
             add([ev.ph('k')], {}, creds, nest)
+    # role names that the TEXT syntax cannot spell (blanks, an edge parenthesis) are legal in the list
+    # syntax, where a member is one check and nothing is tokenized
+    from oslo_policy import policy as _policy
+    for x in ['ops(eu)', 'x)', '(y', 'a b', 'Dev Ops ', 'r))', 'and', 'not x']:
+        for form in ('bare', 'nested', 'bare_or', 'pair'):
+            value = {'bare': ['role:' + x], 'nested': [['role:' + x]], 'bare_or': ['role:zz', 'role:' + x], 'pair': [['role:' + x, '@']]}[form]
+            tree = ev.Or(ev.role('zz'), ev.role(x)) if form == 'bare_or' else ev.role(x)
+            for route in ('from_dict', 'load'):
+                e = ev.make_enforcer({}, ('opt', None))
+                e.set_rules(_policy.Rules.from_dict({'p:x': value}) if route == 'from_dict' else _policy.Rules.load(json.dumps({'p:x': value})), use_conf=False)
+                for roles in ([x], [x.upper()], ['other', x.swapcase()], ['other'], []):
+                    cases.append(ec.enforce_case([('p:x', tree)], {'by': 'name', 'name': 'p:x'}, {}, {'roles': roles}, dflt=('opt', None), want='c04',
+                                                 enforcer=e, extra={'_list_value': value}))
     n_exh = len(cases)
     # random: role lists, placeholders, missing keys, missing roles
     alph = ALPH_ASCII + ALPH_WIDE
@@ -176,6 +190,30 @@ def run(ctx):
             cases.append(ec.enforce_case(rules, {'by': 'name', 'name': 'p:x'}, target, dict(live, roles=list(live['roles'])) if 'roles' in live else dict(live),
                                          dflt=('opt', None), want='c04', creds_obj=live, enforcer=enf, extra={'_session': s_i, '_step': step}))
             n_sess += 1
+    # the same with a RequestContext object whose role list is re-assigned between calls
+    from oslo_context import context as _context
+    for s_i in range(15 if q else 300):
+        nm = names(rng, alph, 3)
+        x = casevar(rng.choice(nm), rng)
+        rules = [('p:x', rng.choice([ev.role(x), ev.Not(ev.role(x)), ev.Or(ev.role(x), ev.F)]))]
+        enf = ev.make_enforcer({n: ev.rule_text(t) for n, t in rules}, ('opt', None))
+        cobj = _context.RequestContext(user_id='u', roles=list(nm), project_id='p', request_id='req-00000000-0000-0000-0000-000000000001')
+        for step in range(4):
+            cobj.roles = rng.choice([[casevar(x, rng)], names(rng, alph, 2), [], list(nm), nm[:1] + [x]])
+            cases.append(ec.enforce_case(rules, {'by': 'name', 'name': 'p:x'}, {}, dict(cobj.to_policy_values()), dflt=('opt', None), want='c04',
+                                         creds_obj=cobj, enforcer=enf, extra={'_session': 'ctx%d' % s_i, '_step': step}))
+            n_sess += 1
+    # non-interference: the same check object evaluated by two calls at once
+    n_conc = 0
+    for leaf, a, b in [(ev.role(ev.ph('k')), ({'k': 'admin'}, {'roles': ['Admin']}), ({'k': 'member'}, {'roles': ['member']})),
+                       (ev.role(ev.ph('k')), ({'k': 'admin'}, {'roles': ['member']}), ({'k': 'member'}, {'roles': ['member']})),
+                       (ev.role('ops'), ({}, {'roles': ['OPS']}), ({}, {'roles': ['dev']})),
+                       (ev.role('t-', ev.ph('k')), ({'k': 'a'}, {'roles': ['T-A']}), ({'k': 'b'}, {'roles': ['t-b']}))]:
+        for nest in ('self', 'not'):
+            cs = ec.interference_cases([('p:x', leaf if nest == 'self' else ev.Not(leaf))], 'p:x', a, b, 'c04', rng, q)
+            n_conc += len(cs)
+            cases += cs
+    ctx.cover['concurrent_call_cases'] = n_conc
     bad = ec.judge(ctx, cases)
     for c in bad:
         ctx.violation('role-check:' + ('raises' if c['obs']['o'] == 'raise' else 'decision'),
